@@ -6,7 +6,7 @@
     ERC20 deployment and conversions, parameter updates) by arbitrary signers, each executed
     atomically.  [IdInv] (the symbol / min-unit indexes are consistent) holds at genesis and
     after every history. *)
-From Irismod Require Import Token.Model Token.ProofsBank Token.Proofs Token.ProofsConv.
+From Irismod Require Import Token.Model Token.Check Token.ProofsBank Token.Proofs Token.ProofsConv Token.Passes.
 
 (** ** identity *)
 
@@ -214,6 +214,24 @@ Theorem mint_fee_split_exact :
 Proof. exact mint_fee_split. Qed.
 Print Assumptions mint_fee_split_exact.
 
+(** ** the checker and the model *)
+
+(** Every model trace passes the C09 checker: for every history of C09 messages (issue / edit /
+    mint / burn / transfer-owner / update-params; issues and mints signed by ordinary accounts, i.e.
+    not by the token module account or the fee collector, which cannot sign) from genesis, the
+    function [check_case_C09] that the check evaluates on IMPLEMENTATION traces, fed the model's own
+    observations ([obs_of]: what the harness would read from a chain in the model's state), answers
+    (-1, -1, 0) — correspondence and all seven clauses (cap, identity, authority, non-mintable,
+    tally, fee split, failed message) pass.  So the C09 check alarms on an implementation trace only
+    where that trace differs from the model. *)
+Theorem model_passes_check_C09 :
+  forall p balances ss reg (ms : list msg),
+    NoDup (keys balances) -> ss <= MAXU64 -> Forall c09_msg ms ->
+    let s0 := genesis p balances ss reg in
+    check_case_C09 (mkCase p balances ss reg (obs_of s0 0) (model_trace s0 ms)) = (-1, -1, 0).
+Proof. exact model_passes_check_C09_lemma. Qed.
+Print Assumptions model_passes_check_C09.
+
 (** ** the hypotheses are satisfiable by a non-trivial history *)
 Example c09_nonvacuous :
   let p := mkParams 400000000000000000 100000000000000000 60000 STAKE true true in
@@ -229,7 +247,8 @@ Example c09_nonvacuous :
               Edit 1 (0, 3) 0 0 2;                          (* non-mintable from now on *)
               Edit 1 (0, 3) 0 12 0;
               Mint 1 (-2) (6, 4) 1 ] in                     (* non-mintable: rejected *)
-  CapInv s0 /\ forallb cap_checked ms = true
+  CapInv s0 /\ forallb cap_checked ms = true /\ Forall c09_msg ms
+  /\ NoDup (keys [((0, STAKE), 1000000000); ((1, STAKE), 1000000000)])
   /\ codes s0 ms = [0; 0; 1; 1; 0; 1; 0; 1; 0; 0; 1]
   /\ supply_of (run s0 ms) (6, 4) = 11000000
   /\ burned_of (run s0 ms) (6, 4) = 500000 /\ burnt_in s0 ms (6, 4) = 500000
@@ -237,5 +256,8 @@ Example c09_nonvacuous :
   /\ balance (run s0 ms) MODULE STAKE = 0.
 Proof.
   cbv zeta. split; [apply genesis_CapInv; unfold MAXU64; lia|].
+  split; [reflexivity|].
+  split; [repeat constructor; unfold MODULE, FEECOL; lia|].
+  split; [repeat constructor; simpl; intuition discriminate|].
   repeat split; vm_compute; reflexivity.
 Qed.
